@@ -680,7 +680,7 @@ Section Manifest.
       Chain.rec_id u0 = Chain.rec_id (mf_ub m) ∧ Chain.idx u0 = Chain.idx (mf_ub m) ∧
       Chain.pid u0 = Chain.pid (mf_ub m) ∧ Chain.prev u0 = None ∧
       Chain.ext u0 = Some (Chain.MkExt true next (H m0)) ∧
-      is_Some (Chain.hash u0) ∧
+      Chain.hash u0 = Some (Hp (stub_of (fst <$> mf_skel m))) ∧ mf_uuid m0 = next ∧
       mf_exts m0 = (if keep then mf_exts m else exts0) ∧
       mf_can_merge st0 = false.
   Proof.
@@ -702,11 +702,15 @@ Section Manifest.
       Chain.hash up = Some (Hp P) ∧ Chain.ext up = Some (Chain.MkExt false (next + 2) (H mp)) ∧
       mf_uuid mp = next + 2 ∧ mf_skel mp = skelx (apply_patch S P) ∧
       mf_exts mp = match r.2 with Some e => e | None => if keep then mf_exts m else exts0 end ∧
-      is_stub_ub u0 = true ∧ mf_can_merge sp = false.
+      is_stub_ub u0 = true ∧ mf_can_merge sp = false ∧
+      Chain.rec_id u0 = Chain.rec_id (mf_ub m) ∧ Chain.idx u0 = Chain.idx (mf_ub m) ∧
+      Chain.pid u0 = Chain.pid (mf_ub m) ∧ Chain.prev u0 = None ∧
+      Chain.hash u0 = Some (Hp (stub_of (fst <$> mf_skel m))) ∧
+      Chain.ext u0 = Some (Chain.MkExt true next (H m0)) ∧ mf_uuid m0 = next.
   Proof.
     intros Hops S P. unfold stub_patch_gen.
     destruct (create_stub_spec keep m next)
-      as (st0 & m0 & u0 & -> & HS & Hu & Hm & Hd & Hn & Hr & Hi & Hpid & Hpr & Hext & [h Hh] & Hex & _).
+      as (st0 & m0 & u0 & -> & HS & Hu & Hm & Hd & Hn & Hr & Hi & Hpid & Hpr & Hext & Hh & Hid0 & Hex & _).
     unfold mf_round, committed. rewrite Hu. cbn. rewrite Hh. cbn.
     unfold mf_create_patch. rewrite Hu, Hh. unfold mf_ops, mf_commit. cbn.
     rewrite HS. fold S. rewrite (run_decompose S r.1 Hops). fold P. unfold apply_patch at 1. cbn.
@@ -717,7 +721,9 @@ Section Manifest.
     { rewrite Hex. by destruct r.2. }
     split.
     { unfold is_stub_ub. by rewrite Hext. }
-    unfold mf_can_merge. cbn. unfold is_stub_ub. by rewrite Hext.
+    split.
+    { unfold mf_can_merge. cbn. unfold is_stub_ub. by rewrite Hext. }
+    done.
   Qed.
 
   (** The patch made on the stub is accepted as the next patch of the real record:
@@ -763,7 +769,8 @@ Section Manifest.
     - intros st0 Hst. destruct (create_stub_spec keep m next) as (st0' & ? & ? & Hst' & H').
       rewrite Hst in Hst'. injection Hst' as <-. apply H'.
     - intros r sp Hops Hsp. destruct (stub_patch_spec keep m next r Hops) as (sp' & ? & ? & ? & ? & Hsp' & H').
-      rewrite Hsp in Hsp'. injection Hsp' as <-. apply H'.
+      rewrite Hsp in Hsp'. injection Hsp' as <-.
+      by destruct H' as (_ & _ & _ & _ & _ & _ & _ & _ & _ & _ & _ & _ & _ & _ & ? & _).
   Qed.
 
   (** Any record with a stub-flagged user block refuses to merge. *)
@@ -1071,3 +1078,356 @@ Lemma stub_manifest_index_observed :
   index_case = Some (Some (KData, 1%nat), Some (KData, 0%nat), true).
 Proof. vm_compute. reflexivity. Qed.
 Local Close Scope string_scope.
+
+(** ** The loop of [init_stub_skeleton] builds [stub_of] *)
+
+(** Attributes are values (the skeleton of the code cannot say anything else). *)
+Definition attrs_data (T : tree) : Prop :=
+  ∀ s par e, T !! (s :: par) = Some e → s.1 = true → kind_of e = KData.
+
+(** Every entry comes after its parent ([visititems] is a pre-order walk and the attributes
+    of a node follow it). *)
+Fixpoint parent_first (s1 : skeleton) (l : list (path * kind)) : Prop :=
+  match l with
+  | [] => True
+  | pk :: r =>
+      match pk.1 with
+      | [] => False
+      | [_] => True
+      | _ :: par => is_Some (s1 !! par)
+      end ∧ parent_first (<[pk.1 := pk.2]> s1) r
+  end.
+
+Definition restrict (T : tree) (s1 : skeleton) : tree :=
+  filter (λ pe, is_Some (s1 !! pe.1)) T.
+
+Definition sub_ok (T : tree) (s1 : skeleton) : Prop :=
+  s1 ⊆ skel T ∧ ∀ s par, is_Some (s1 !! (s :: par)) → par ≠ [] → is_Some (s1 !! par).
+
+Lemma restrict_lookup T s1 p :
+  restrict T s1 !! p = if decide (is_Some (s1 !! p)) then T !! p else None.
+Proof.
+  unfold restrict. apply option_eq. intros e. rewrite map_filter_lookup_Some. cbn.
+  case_decide; naive_solver.
+Qed.
+
+Lemma skel_restrict T s1 : s1 ⊆ skel T → skel (restrict T s1) = s1.
+Proof.
+  intros Hsub. apply map_eq. intros p. rewrite skel_lookup, restrict_lookup.
+  case_decide as Hp.
+  - destruct Hp as [k Hk]. rewrite Hk. rewrite <-skel_lookup.
+    by apply (lookup_weaken _ _ _ _ Hk Hsub).
+  - by apply eq_None_not_Some in Hp as ->.
+Qed.
+
+Lemma wf_restrict T s1 : wf_tree T → sub_ok T s1 → wf_tree (restrict T s1).
+Proof.
+  intros [Hroot Hwf] [Hsub Hcl]. split.
+  - rewrite restrict_lookup. by case_decide.
+  - intros s par e. rewrite restrict_lookup. case_decide as Hq; [|done]. intros He.
+    destruct (Hwf _ _ _ He) as (ep & Hp & Hh). exists ep. split; [|done].
+    destruct par as [|s' par']; [done|]. cbn [tget] in *. rewrite restrict_lookup.
+    rewrite decide_True; [done|]. by apply (Hcl s).
+Qed.
+
+Lemma wf_node_path T : wf_tree T → ∀ par s e, T !! (s :: par) = Some e → is_node_path par = true.
+Proof.
+  intros [_ Hwf]. induction par as [|s' par IH]; intros s e He; [done|].
+  destruct (Hwf _ _ _ He) as (ep & Hp & Hh). cbn [tget] in Hp.
+  change (negb s'.1 && is_node_path par = true). rewrite (IH _ _ Hp), andb_true_r.
+  destruct s' as [[] k']; [done|done].
+Qed.
+
+Lemma mkgroups_noop deep R (q : path) lb b :
+  is_node_path q = true → status R q = Some (lb, RGroup b) → m_mkgroups deep R q = Some (R, false).
+Proof.
+  revert lb b. induction q as [|s par IH]; intros lb b Hnp Hq; [done|]. cbn [m_mkgroups].
+  assert (is_Some (status R (s :: par))) as Hv by (by rewrite Hq).
+  apply status_parent in Hv as (lbp & ep & Hp & Hh).
+  assert (∃ bp, ep = RGroup bp) as [bp ->].
+  { cbn in Hnp. apply andb_prop in Hnp as [Hs _]. destruct s as [[] k]; [done|].
+    destruct par as [|[[] ?] ?], ep; cbn in Hh; try done; eauto. }
+  rewrite (IH _ _ (node_path_tail _ _ Hnp) Hp). by rewrite Hq.
+Qed.
+
+Lemma stub_graft s1 (q : path) k :
+  (∀ a, a ∈ ancestors q → is_Some (s1 !! a)) →
+  graft {[q := stub_entry k]} (stub_of s1) q = stub_of (<[q := k]> s1).
+Proof.
+  intros Hanc. apply map_eq. intros x. rewrite graft_lookup. unfold stub_of.
+  rewrite !lookup_fmap. destruct (decide (x = q)) as [->|Hx].
+  - by rewrite lookup_singleton, lookup_insert.
+  - rewrite lookup_singleton_ne, lookup_insert_ne by done.
+    destruct (s1 !! x) as [kx|] eqn:Hsx; [done|]. cbn. rewrite carr_lookup.
+    case_decide as Ha; [|done]. apply Hanc in Ha. rewrite Hsx in Ha. by destruct Ha.
+Qed.
+
+Lemma sub_ok_insert T s1 (q : path) k :
+  sub_ok T s1 → skel T !! q = Some k →
+  match q with [] => False | [_] => True | _ :: par => is_Some (s1 !! par) end →
+  sub_ok T (<[q := k]> s1).
+Proof.
+  intros [Hsub Hcl] Hk Hpar. split.
+  - by apply insert_subseteq_l.
+  - intros s par. destruct (decide (s :: par = q)) as [<-|Hne].
+    + intros _ Hp. destruct par as [|s' par']; [done|].
+      destruct (decide (s' :: par' = s :: s' :: par')) as [Heq|Hne'].
+      * apply (f_equal length) in Heq. cbn in Heq. lia.
+      * by rewrite lookup_insert_ne.
+    + rewrite lookup_insert_ne by done. intros Hs Hp. specialize (Hcl _ _ Hs Hp).
+      destruct (decide (par = q)) as [->|]; [by rewrite lookup_insert|by rewrite lookup_insert_ne].
+Qed.
+
+Lemma sub_ok_ancestors T s1 (s : seg) (par : path) :
+  sub_ok T s1 → (par = [] ∨ is_Some (s1 !! par)) →
+  ∀ a, a ∈ ancestors (s :: par) → is_Some (s1 !! a).
+Proof.
+  intros [_ Hcl] Hpar a (Hne & Hq & Ha)%elem_of_ancestors.
+  apply suffix_cons_inv' in Ha as [Ha|Ha]; [done|].
+  destruct Hpar as [->|Hp]; [by apply suffix_nil_inv in Ha|].
+  clear Hq. induction par as [|s' par' IH]; [by apply suffix_nil_inv in Ha|].
+  apply suffix_cons_inv' in Ha as [->|Ha]; [done|]. apply IH; [|done].
+  apply (Hcl s' par' Hp). intros ->. by apply suffix_nil_inv in Ha.
+Qed.
+
+Lemma build_step (n : nat) T s1 (q : path) k :
+  wf_tree T → attrs_data T → sub_ok T s1 → skel T !! q = Some k → s1 !! q = None →
+  match q with [] => False | [_] => True | _ :: par => is_Some (s1 !! par) end →
+  (m_step (stub_stack n s1) (stub_op (q, k))).1 = stub_stack n (<[q := k]> s1).
+Proof.
+  intros HT Hattr Hok Hk Hfresh Hpar. pose proof Hok as [Hsub Hcl].
+  destruct q as [|s par]; [done|].
+  rewrite skel_lookup in Hk. destruct (T !! (s :: par)) as [e|] eqn:He; [|done].
+  injection Hk as Hk.
+  pose proof (wf_node_path T HT par s e He) as Hnp.
+  destruct HT as [Hroot Hwf]. destruct (Hwf _ _ _ He) as (ep & Hp & Hh).
+  set (T1 := restrict T s1).
+  assert (wf_tree T1) as HT1 by (by apply wf_restrict).
+  assert (skel T1 = s1) as Hsk1 by (by apply skel_restrict).
+  assert (Hst : ∀ s0 p0, status (stub_stack n s1) (s0 :: p0) = stub_raw n <$> T1 !! (s0 :: p0)).
+  { intros s0 p0. rewrite <-Hsk1. by apply stub_status. }
+  assert (T1 !! (s :: par) = None) as Hq1.
+  { unfold T1. rewrite restrict_lookup. rewrite decide_False; [done|]. rewrite Hfresh. by intros [? ?]. }
+  assert (par = [] ∨ is_Some (s1 !! par)) as Hpar'.
+  { destruct par as [|s' par']; [by left|by right]. }
+  assert (Hparst : ∃ lb ep', status (stub_stack n s1) par = Some (lb, ep') ∧ erase (Some (lb, ep')) = Some (blank_entry ep)).
+  { destruct par as [|s' par'].
+    - cbn in Hp. injection Hp as <-. by exists 0, (RGroup false).
+    - rewrite Hst. unfold T1. rewrite restrict_lookup, decide_True by done. cbn [tget] in Hp.
+      rewrite Hp. cbn. eexists _, _. split; [done|]. by destruct ep. }
+  destruct Hparst as (lbp & ep' & Hps & Her).
+  assert (Hgraft : m_write1 (stub_stack n s1) (s :: par) (stub_entry k) = stub_stack n (<[s :: par := k]> s1)).
+  { unfold m_write1, stub_stack. cbn [with_top]. f_equal. f_equal.
+    apply stub_graft. by eapply sub_ok_ancestors. }
+  destruct s as [[] key].
+  - (* attribute *)
+    assert (k = KData) as -> by (rewrite <-Hk; by eapply Hattr).
+    cbn [stub_op fst snd]. unfold m_step. rewrite Hnp. cbn [andb negb is_del_value].
+    replace (bool_decide (placeholder = del_value)) with false by done. cbn [negb].
+    unfold m_attr_set. rewrite Hps. cbn. exact Hgraft.
+  - (* node *)
+    assert (ep = TGroup) as ->.
+    { destruct ep; [|done]. destruct par as [|[[] ?] ?]; cbn in Hh; done. }
+    assert (∃ b, ep' = RGroup b) as [b ->] by (destruct ep'; cbn in Her; try done; eauto).
+    assert (is_node_path ((false, key) :: par) = true) as Hnq
+      by (change (negb false && is_node_path par = true); by rewrite Hnp).
+    destruct k.
+    + cbn [stub_op fst snd]. unfold m_step. rewrite Hnq. unfold m_create_group.
+      rewrite Hst, Hq1. cbn [fmap option_fmap option_map]. cbn [m_mkgroups].
+      rewrite (mkgroups_noop true _ par lbp b Hnp Hps). rewrite Hst, Hq1.
+      cbn [fmap option_fmap option_map is_patch stub_stack andb fst]. exact Hgraft.
+    + cbn [stub_op fst snd]. unfold m_step. rewrite Hnq. cbn [andb].
+      replace (is_del_value placeholder) with false by done. cbn [negb]. unfold m_set_data.
+      rewrite Hst, Hq1. cbn [fmap option_fmap option_map].
+      rewrite (mkgroups_noop false _ par lbp b Hnp Hps). cbn. exact Hgraft.
+Qed.
+
+Lemma build_from (n : nat) T : wf_tree T → attrs_data T → ∀ l s1,
+  sub_ok T s1 → Forall (λ pk, skel T !! pk.1 = Some pk.2) l → NoDup l.*1 →
+  (∀ p, p ∈ l.*1 → s1 !! p = None) → parent_first s1 l →
+  ∃ s2, run_from (stub_stack n s1) (map stub_op l) = stub_stack n s2 ∧
+        ∀ p, s2 !! p = match s1 !! p with Some k => Some k | None => (list_to_map l : skeleton) !! p end.
+Proof.
+  intros HT Hattr. induction l as [|[q k] l IH]; intros s1 Hok Hall Hnd Hfresh Hpf.
+  - exists s1. split; [done|]. intros p. cbn. rewrite lookup_empty. by destruct (s1 !! p).
+  - apply Forall_cons in Hall as [Hk Hall]. cbn in Hk. cbn [fmap list_fmap] in Hnd.
+    apply NoDup_cons in Hnd as [Hq Hnd]. destruct Hpf as [Hpar Hpf]. cbn [fst snd] in *.
+    assert (s1 !! q = None) as Hfq by (apply Hfresh; cbn; left).
+    cbn [map run_from foldl]. rewrite (build_step n T s1 q k) by done.
+    destruct (IH (<[q := k]> s1)) as (s2 & Hrun & Hlk); try done.
+    + by apply sub_ok_insert.
+    + intros p Hp. rewrite lookup_insert_ne; [apply Hfresh; cbn; by right|]. by intros <-.
+    + exists s2. split; [exact Hrun|]. intros p. rewrite Hlk. cbn [list_to_map foldr fst snd].
+      destruct (decide (p = q)) as [->|Hne].
+      * by rewrite !lookup_insert, Hfq.
+      * by rewrite !lookup_insert_ne.
+Qed.
+
+(** For every well-formed tree whose attributes are values, and every listing of its skeleton
+    in which parents come first, the loop builds exactly the stub of the skeleton. *)
+Lemma stub_build_eq (n : nat) T (l : list (path * kind)) :
+  wf_tree T → attrs_data T → NoDup l.*1 → list_to_map l = skel T → parent_first ∅ l →
+  stub_build n l = stub_stack n (skel T).
+Proof.
+  intros HT Hattr Hnd Hl Hpf.
+  destruct (build_from n T HT Hattr l ∅) as (s2 & Hrun & Hlk); try done.
+  - split; [apply map_empty_subseteq|]. intros s par. rewrite lookup_empty. by intros [? ?].
+  - apply Forall_forall. intros [q k] Hin. cbn. rewrite <-Hl.
+    by apply elem_of_list_to_map_1.
+  - unfold stub_build.
+    replace [(n, (∅ : cont))] with (stub_stack n ∅)
+      by (unfold stub_stack, stub_of; by rewrite fmap_empty).
+    rewrite Hrun. f_equal. apply map_eq. intros p. rewrite Hlk, lookup_empty. by rewrite Hl.
+Qed.
+
+(** *** Attributes are values in every reachable tree *)
+
+Lemma attrs_data_insert (T : tree) (q : path) e :
+  attrs_data T → (∀ s par, q = s :: par → s.1 = true → kind_of e = KData) →
+  attrs_data (<[q := e]> T).
+Proof.
+  intros HT Hq s par e'. destruct (decide (s :: par = q)) as [<-|Hne].
+  - rewrite lookup_insert. intros [= <-] Hs. by eapply Hq.
+  - rewrite lookup_insert_ne by done. apply HT.
+Qed.
+
+Lemma node_path_head (s : seg) (par : path) : is_node_path (s :: par) = true → s.1 = false.
+Proof. cbn. intros [H _]%andb_prop. by destruct s as [[] ?]. Qed.
+
+Lemma attrs_data_mkgroups (q : path) : ∀ T T1,
+  attrs_data T → is_node_path q = true → t_mkgroups T q = Some T1 → attrs_data T1.
+Proof.
+  induction q as [|s par IH]; intros T T1 HT Hnp; cbn [t_mkgroups]; [by intros [= <-]|].
+  destruct (t_mkgroups T par) as [T0|] eqn:H0; [|done].
+  specialize (IH _ _ HT (node_path_tail _ _ Hnp) H0).
+  destruct (T0 !! (s :: par)) as [[]|]; [done|by intros [= <-]|]. intros [= <-].
+  apply attrs_data_insert; [done|]. intros s' par' [= <- <-] Hs.
+  apply node_path_head in Hnp. congruence.
+Qed.
+
+Lemma attrs_data_subset (T T' : tree) : attrs_data T → T' ⊆ T → attrs_data T'.
+Proof. intros HT Hsub s par e He. eapply HT. by eapply lookup_weaken. Qed.
+
+Lemma attrs_data_copy (T : tree) (src dst : path) T1 :
+  attrs_data T → is_node_path dst = true → t_copy T src dst = Some T1 → attrs_data T1.
+Proof.
+  intros HT Hnd. unfold t_copy. destruct src as [|ss sp]; [done|]. destruct dst as [|t dpar]; [done|].
+  destruct (T !! (ss :: sp)); [|done]. destruct (T !! (t :: dpar)); [done|].
+  destruct (t_mkgroups T dpar) as [T0|] eqn:H0; [|done]. intros [= <-].
+  pose proof (attrs_data_mkgroups dpar _ _ HT (node_path_tail _ _ Hnd) H0) as HT0.
+  intros s par e He Hs. apply lookup_union_Some_raw in He as [He|[_ He]]; [|by eapply HT0].
+  destruct (decide (under (t :: dpar) (s :: par))) as [[r Hr]|Hu].
+  - rewrite Hr, graft_snap_lookup, rel_snap_lookup in He. destruct r as [|s' r'].
+    + cbn in Hr. injection Hr as -> ->. apply node_path_head in Hnd. congruence.
+    + cbn in Hr. injection Hr as <- _. by eapply HT.
+  - by rewrite graft_snap_None in He.
+Qed.
+
+Lemma attrs_data_step (T : tree) o : attrs_data T → attrs_data (t_step T o).1.
+Proof.
+  intros HT. unfold t_step.
+  destruct o as [q|q v|q|p k v|p k|s d|s d|]; cbn [fst]; try done.
+  - destruct (is_node_path q) eqn:Hnp; [|done]. unfold t_create_group.
+    destruct q as [|s par]; [done|]. destruct (T !! (s :: par)); [done|].
+    destruct (t_mkgroups T (s :: par)) eqn:Hm; [|done]. by eapply attrs_data_mkgroups.
+  - destruct (is_node_path q) eqn:Hnp; [|done]. cbn [andb].
+    destruct (negb (is_del_value v)); [|done]. unfold t_set_data.
+    destruct q as [|s par]; [done|]. destruct (T !! (s :: par)); [done|].
+    destruct (t_mkgroups T par) eqn:Hm; [|done]. cbn.
+    apply attrs_data_insert; [|done]. by eapply attrs_data_mkgroups, Hm; [|eapply node_path_tail].
+  - destruct (is_node_path q); [|done]. unfold t_delete. destruct q as [|s par]; [done|].
+    destruct (T !! (s :: par)); [|done]. cbn. eapply attrs_data_subset; [done|].
+    apply map_filter_subseteq.
+  - destruct (is_node_path p && negb (is_del_value v)); [|done]. unfold t_attr_set.
+    destruct (tget T p); [|done]. cbn. by apply attrs_data_insert.
+  - destruct (is_node_path p); [|done]. unfold t_attr_del.
+    destruct (tget T p); [|done]. destruct (T !! ((true, k) :: p)); [|done]. cbn.
+    eapply attrs_data_subset; [done|]. apply delete_subseteq.
+  - destruct (is_node_path s); [|done]. destruct (is_node_path d) eqn:Hd; [|done]. cbn [andb].
+    destruct (t_copy T s d) eqn:Hc; [|done]. by eapply attrs_data_copy.
+  - destruct (is_node_path s); [|done]. destruct (is_node_path d) eqn:Hd; [|done]. cbn [andb].
+    unfold t_move. case_decide; [done|]. destruct (t_copy T s d) as [T1|] eqn:Hc; [|done].
+    pose proof (attrs_data_copy _ _ _ _ HT Hd Hc) as H1. unfold t_delete.
+    destruct s as [|ss sp]; [done|]. destruct (T1 !! (ss :: sp)); [|done]. cbn.
+    eapply attrs_data_subset; [done|]. apply map_filter_subseteq.
+Qed.
+
+Lemma attrs_data_fold ops : ∀ T, attrs_data T → attrs_data (foldl (λ T o, (t_step T o).1) T ops).
+Proof.
+  induction ops as [|o ops IH]; intros T HT; [done|]. cbn [foldl]. by apply IH, attrs_data_step.
+Qed.
+
+Lemma attrs_data_run ops : attrs_data (run_t ops).
+Proof. apply attrs_data_fold. intros s par e. by rewrite lookup_empty. Qed.
+
+(** For the view of every record history: the loop run on any parent-first listing of its
+    skeleton yields the stub the other theorems speak about. *)
+Lemma stub_build_history (n : nat) ops (l : list (path * kind)) :
+  NoDup l.*1 → list_to_map l = skel (viewmap (run_m ops)) → parent_first ∅ l →
+  stub_build n l = stub_stack n (skel (viewmap (run_m ops))).
+Proof.
+  pose proof (run_refines ops) as HS. rewrite (viewmap_eq _ _ HS). intros Hnd Hl Hpf.
+  apply stub_build_eq; [by eapply Sim_wf|apply attrs_data_run|done|done|done].
+Qed.
+
+(** ** The stub and the patch made on it open as a set *)
+
+Section StubSet.
+  Context (H : manifest → N) (Hp : cont → N).
+  Import Chain ChainProofs.
+  Local Open Scope N_scope.
+
+  Lemma chain_single f :
+    fprev f = None → intact f → mf_ok f → chain_ok true false [f].
+  Proof.
+    intros Hprev Hint Hmf. constructor.
+    - eexists _, []. split; [done|]. split; [done|]. split; [constructor|]. intros _. constructor.
+    - constructor.
+    - cbn. apply NoDup_ListNoDup, NoDup_singleton.
+    - eexists [], _. split; [done|]. split; [constructor|]. split; [by right|done].
+  Qed.
+
+  (** [T] = the tree whose skeleton the manifest [m] holds; the stub file [sf] (flagged, without
+      predecessor) and the patch file [pf] made on it are accepted by [IH5MFRecord] in any
+      listing order, and the record shows the update applied to the blanked tree. *)
+  Lemma stub_set_opens T m next r :
+    wf_tree T → fst <$> mf_skel m = skel T → pid (mf_ub m) < next → Forall eb_op r.1 →
+    ∃ sp sf pf,
+      stub_patch H Hp m next r = Some sp ∧ files_of H Hp sp = [sf; pf] ∧
+      stub_marked sf = true ∧ fprev sf = None ∧ fprev pf = Some (fpid sf) ∧
+      (∀ fs, Permutation [sf; pf] fs → open_check true false fs = Some [sf; pf]) ∧
+      viewmap (r_stack sp) = foldl (λ T o, (t_step T o).1) (blank T) r.1.
+  Proof.
+    intros HT Hsk Hfresh Hops.
+    destruct (stub_patch_spec H Hp true m next r Hops)
+      as (sp & mp & u0 & up & m0 & Hsp & HS & Hu & Hmp & Hd & Hr & Hi & Hpid & Hpr & Hh & Hext
+          & Hid & _ & _ & _ & _ & Hr0 & Hi0 & Hpid0 & Hpr0 & Hh0 & Hext0 & Hid0).
+    set (nn := N.to_nat (idx (mf_ub m))) in *.
+    set (S := stub_stack nn (fst <$> mf_skel m)) in *.
+    set (P := patch_on S r.1) in *.
+    set (sf := MkFile u0 (Hp (stub_of (fst <$> mf_skel m))) (Some (mf_uuid m0, H m0))).
+    set (pf := MkFile up (Hp P) (Some (mf_uuid mp, H mp))).
+    exists sp, sf, pf. split; [exact Hsp|].
+    split; [unfold files_of; by rewrite HS, Hu, Hd|].
+    split; [unfold stub_marked, fext; cbn; by rewrite Hext0|].
+    split; [unfold fprev; by cbn|].
+    split; [unfold fprev, fpid; cbn; by rewrite Hpr, Hpid0|].
+    split.
+    - intros fs Hperm. apply accept_chain. split; [done|].
+      apply (patch_accepted [sf] sf pf).
+      + apply chain_single; [done|unfold intact, fhash; by cbn|].
+        intros e. unfold fext. cbn. rewrite Hext0. intros [= <-]. cbn. by eexists.
+      + constructor; [|constructor]. unfold intact, fhash. by cbn.
+      + done.
+      + done.
+      + unfold frec. cbn. by rewrite Hr, Hr0.
+      + unfold fidx. cbn. rewrite Hi, Hi0. lia.
+      + unfold fprev, fpid. cbn. by rewrite Hpr, Hpid0.
+      + unfold fpid. cbn. rewrite Hpid, Hpid0. intros [Heq|[]]. lia.
+      + unfold intact, fhash. by cbn.
+      + intros e. unfold fext. cbn. rewrite Hext. intros [= <-]. cbn. by eexists.
+      + intros e. unfold fext. cbn. rewrite Hext. by intros [= <-].
+    - rewrite HS. unfold P. rewrite <-run_decompose by done. apply viewmap_eq.
+      apply fold_refines. apply boundary_refines. unfold S. rewrite Hsk. by apply stub_sim.
+  Qed.
+End StubSet.
